@@ -17,6 +17,7 @@ import (
 	_ "github.com/nyaruka/goflow/flows/routers/cases" // registers the router tests as functions
 	"pgregory.net/rapid"
 
+	"verif/harness/internal/bound"
 	"verif/harness/internal/gen"
 	"verif/harness/internal/guard"
 	"verif/harness/internal/harn"
@@ -28,27 +29,7 @@ func TestMain(m *testing.M) {
 	stats.Main(m, "C04")
 }
 
-// boundResultSizes keeps *legitimately* huge results out of the campaign: the property bounds evaluation time by the
-// size of the result, so repeat("ab", 2147483647) may take as long as writing 4 GB takes. The registered function
-// is wrapped (through the public registry, no source change) so that only calls whose result would exceed 10^6
-// characters are answered with an error and counted; everything else reaches the real function.
-func boundResultSizes() {
-	orig := functions.XFUNCTIONS["repeat"]
-	if orig == nil {
-		return
-	}
-	functions.RegisterXFunction("repeat", func(env envs.Environment, args ...types.XValue) types.XValue {
-		if len(args) == 2 {
-			text, err1 := types.ToXText(env, args[0])
-			count, err2 := types.ToInteger(env, args[1])
-			if err1 == nil && err2 == nil && count > 0 && int64(count)*int64(len(text.Native())) > 1_000_000 {
-				stats.Exclude("result-larger-than-1e6-chars:repeat")
-				return types.NewXErrorf("harness: result too large to generate")
-			}
-		}
-		return orig.Call(env, args)
-	})
-}
+func boundResultSizes() { bound.ResultSizes() }
 
 const watchdog = 15 * time.Second
 
